@@ -28,9 +28,17 @@ theorem CRel.refl_none (c : Compactor ρ) : CRel none c c :=
 theorem CRel.nomCap {hh : Option Nat} {c c' : Compactor ρ} (T : Tun) (r : CRel hh c c') : c'.nomCap T = c.nomCap T := by
   simp [Compactor.nomCap, r.ss, r.ns]
 
-theorem mk'_CRel (T : Tun) (F : SecFns ρ) (hh : Option Nat) (hra : Bool) (lg k : Nat) :
-    CRel hh (Compactor.mk' T F hra lg k) (Compactor.mk' T F hra lg k) :=
-  ⟨rfl, rfl, rfl, rfl, rfl, rfl, rfl, rfl, rfl, fun _ _ _ => ⟨rfl, rfl⟩, fun _ _ _ => rfl, fun _ _ _ => by simp [Compactor.mk']⟩
+theorem mk'_CRel (T : Tun) (F : SecFns ρ) (hh : Option Nat) (hra : Bool) (lg k : Nat) (d d' : Bool)
+    (h1 : ∀ h, hh = some h → lg < h → T.initCoinRandom = true → d' = d)
+    (h2 : ∀ h, hh = some h → lg = h → T.initCoinRandom = true → d' = !d) :
+    CRel hh (Compactor.mkC T F hra lg k d) (Compactor.mkC T F hra lg k d') := by
+  unfold Compactor.mkC
+  by_cases hf : T.initCoinRandom = true
+  · simp only [hf, if_true]
+    exact ⟨rfl, rfl, rfl, rfl, rfl, rfl, rfl, rfl, rfl, fun _ _ _ => ⟨rfl, rfl⟩, fun h e hl => h1 h e hl hf,
+      fun h e hl => by show d' = (d != true); rw [h2 h e hl hf]; cases d <;> rfl⟩
+  · simp only [hf, if_false]
+    exact ⟨rfl, rfl, rfl, rfl, rfl, rfl, rfl, rfl, rfl, fun _ _ _ => ⟨rfl, rfl⟩, fun _ _ _ => rfl, fun _ _ _ => by simp [Compactor.mk']⟩
 
 theorem append_CRel {hh : Option Nat} {c c' : Compactor ρ} (x : Int) (r : CRel hh c c') : CRel hh (c.append x) (c'.append x) := by
   refine ⟨r.lg, r.hra, ?_, r.ssRaw, r.ss, r.ns, r.state, r.rnd, ?_, ?_, r.coinLt, r.coinEq⟩
